@@ -14,6 +14,8 @@ import (
 	"math/rand/v2"
 	"net/http"
 	"net/url"
+	"runtime"
+	"runtime/debug"
 	"strings"
 
 	"connectrpc.com/connect"
@@ -347,9 +349,13 @@ func buildRequest(rng *rand.Rand, sc *Scenario, m methodInfo, cp clientPlan, hos
 	// faults
 	faultDie := 40
 	if hostile {
-		faultDie = 6
+		faultDie = 7
 	}
-	switch rng.IntN(faultDie) {
+	fault := rng.IntN(faultDie)
+	if !hostile && genHostileDie < 5 && rng.IntN(4) == 0 {
+		fault = 4 // history stream: plenty of requests whose compressed payload has a bad header
+	}
+	switch fault {
 	case 0: // cut the body
 		if len(body) > 0 {
 			body = body[:rng.IntN(len(body))]
@@ -378,6 +384,15 @@ func buildRequest(rng *rand.Rand, sc *Scenario, m methodInfo, cp clientPlan, hos
 			e.Class("req:corrupt")
 			sc.gen.reqClean = false
 		}
+	case 4: // break the first byte of the (possibly compressed) payload: a bad compression header
+		switch {
+		case len(body) > 5 && rng.IntN(2) == 0:
+			body[5] ^= 0x40
+		case len(body) > 0:
+			body[0] ^= 0x40
+		}
+		e.Class("req:corrupt-head")
+		sc.gen.reqClean = false
 	}
 	sc.Req.Body = splitChunks(rng, body)
 }
@@ -483,6 +498,21 @@ func buildResponse(rng *rand.Rand, sc *Scenario, m methodInfo, ss serverSide, e 
 		script = nil // does not read the request at all
 		readsAll = false
 		e.Class("resp:no-read")
+	}
+	switch rng.IntN(12) {
+	case 0: // the handler closes the request body when it is done with it
+		script = append(script, []string{"close"})
+		e.Class("resp:close-body")
+	case 1: // ... twice (explicit Close plus a deferred one), harmless for net/http bodies
+		script = append(script, []string{"close"}, []string{"close"})
+		e.Class("resp:close-body-twice")
+	case 2: // ... early, and reads on
+		if len(script) > 0 && rng.IntN(2) == 0 {
+			script = append([][]string{script[0], {"close"}}, script[1:]...)
+			script = append(script, []string{"readall", "16"})
+			readsAll = false
+			e.Class("resp:close-then-read")
+		}
 	}
 	sethdr := func(k, v string) { script = append(script, []string{"sethdr", hs(k), hs(v)}) }
 	addhdr := func(k, v string) { script = append(script, []string{"addhdr", hs(k), hs(v)}) }
@@ -678,7 +708,7 @@ func buildResponse(rng *rand.Rand, sc *Scenario, m methodInfo, ss serverSide, e 
 			end["metadata"] = md
 		}
 		payload, _ := json.Marshal(end)
-		if rng.IntN(30) == 0 {
+		if rng.IntN(10) == 0 {
 			payload = []byte(`{"error": nope`)
 			sc.gen.respClean = false
 			e.Class("resp:bad-end-json")
@@ -769,7 +799,7 @@ func buildResponse(rng *rand.Rand, sc *Scenario, m methodInfo, ss serverSide, e 
 	case 1: // write after the end
 		script = append(script, []string{"write", hx(envelope(0, []byte("late")))})
 		e.Class("resp:late-write")
-			sc.gen.respClean = false
+		sc.gen.respClean = false
 	case 2: // corrupt a written byte
 		for i := range script {
 			if script[i][0] == "write" && script[i][1] != "-" {
@@ -777,7 +807,7 @@ func buildResponse(rng *rand.Rand, sc *Scenario, m methodInfo, ss serverSide, e 
 				b[rng.IntN(len(b))] ^= byte(1 << rng.IntN(8))
 				script[i][1] = hx(b)
 				e.Class("resp:corrupt-byte")
-			sc.gen.respClean = false
+				sc.gen.respClean = false
 				break
 			}
 		}
@@ -908,7 +938,13 @@ func streamE2E(e *Emitter, rng *rand.Rand, tier string) {
 }
 
 // genScenario draws one whole-request scenario (configuration, request, backend script).
-func genScenario(e *Emitter, rng *rand.Rand) *Scenario {
+// genHostileDie: one request in genHostileDie is hostile (the history stream lowers it).
+var genHostileDie = 5
+
+func genScenario(e *Emitter, rng *rand.Rand) *Scenario { return genScenarioWith(e, rng, nil) }
+
+// genScenarioWith draws a scenario; override (if any) fixes the configuration after it was drawn.
+func genScenarioWith(e *Emitter, rng *rand.Rand, override func(*Scenario)) *Scenario {
 	sc := &Scenario{}
 	sc.Cfg.Protocols = subset(rng, []string{"connect", "grpc", "grpcweb"}, true)
 	if rng.IntN(15) == 0 {
@@ -919,8 +955,11 @@ func genScenario(e *Emitter, rng *rand.Rand) *Scenario {
 	sc.Cfg.MaxMsg = pick(rng, []uint32{8, 16, 40, 1000, 1000, 1000})
 	sc.Cfg.MaxGetURL = pick(rng, []uint32{40, 70, 90, 200})
 	sc.Cfg.Unknown = rng.IntN(3) == 0
+	if override != nil {
+		override(sc)
+	}
 	m := pick(rng, methods)
-	hostile := rng.IntN(5) == 0 // 20% of the requests may be invalid in their protocol
+	hostile := rng.IntN(genHostileDie) == 0 // 20% of the requests may be invalid in their protocol
 	cp := clientPlan{codec: pick(rng, []string{"raw", "hexa", "rev"}), comp: pick(rng, []string{"", "", "Z", "Y", "identity"})}
 	if hostile {
 		cp.codec = pick(rng, []string{"raw", "hexa", "rev", "bogus", ""})
@@ -948,7 +987,22 @@ func genScenario(e *Emitter, rng *rand.Rand) *Scenario {
 	return sc
 }
 
+var histCalls int
+
 func init() {
+	streams["history"] = streamHistory
+	executors["e2e_hist"] = func(a []string) string {
+		// the probe on the transcoder that served everything before it, and on a brand new one.
+		// sync.Pool forgets its contents at every garbage collection, which would erase most of
+		// the history: collect only every 256 requests.
+		if histCalls == 0 {
+			debug.SetGCPercent(-1)
+		}
+		if histCalls++; histCalls%256 == 0 {
+			runtime.GC()
+		}
+		return executors["e2e"]([]string{a[0]}) + " ## " + executors["e2e_fresh"]([]string{a[0]})
+	}
 	streams["limits"] = func(e *Emitter, rng *rand.Rand, tier string) {
 		n := 800
 		if tier == "thorough" {
@@ -1245,5 +1299,42 @@ func buildRequestFixed(rng *rand.Rand, sc *Scenario, m methodInfo, cp clientPlan
 	}
 	if len(payload) > 0 {
 		sc.Req.Body = []string{hx(payload)}
+	}
+}
+
+// streamHistory: few configurations, many requests each (valid and hostile, cut mid-message,
+// over limit, corrupt compressed data...), and after every few of them a probe that is run on the
+// used Transcoder and on a fresh one.
+func streamHistory(e *Emitter, rng *rand.Rand, tier string) {
+	n := 900
+	if tier == "thorough" {
+		n = 25000
+	}
+	// a handful of fixed configurations so that the cached transcoders accumulate history
+	type cfgT struct {
+		protocols, codecs, compress []string
+		maxMsg                      uint32
+	}
+	cfgs := []cfgT{
+		{[]string{"grpc"}, []string{"hexa"}, []string{"Z"}, 16},
+		{[]string{"connect"}, []string{"raw", "hexa"}, nil, 40},
+		{[]string{"grpcweb", "connect"}, []string{"rev"}, []string{"Y", "Z"}, 1000},
+		{[]string{"connect", "grpc", "grpcweb"}, []string{"hexa", "raw", "rev"}, []string{"Z"}, 8},
+	}
+	genHostileDie = 3
+	defer func() { genHostileDie = 5 }()
+	for i := 0; i < n; i++ {
+		c := cfgs[rng.IntN(len(cfgs))]
+		var sc *Scenario
+		for {
+			sc = genScenarioWith(e, rng, func(s *Scenario) {
+				s.Cfg.Protocols, s.Cfg.Codecs, s.Cfg.Compress, s.Cfg.MaxMsg = c.protocols, c.codecs, c.compress, c.maxMsg
+				s.Cfg.MaxGetURL, s.Cfg.Unknown = 200, false
+			})
+			break
+		}
+		raw, _ := json.Marshal(sc)
+		// every request is both a probe (used versus fresh transcoder) and history for the next ones
+		e.Emit("e2e_hist " + hex.EncodeToString(raw))
 	}
 }
